@@ -68,6 +68,40 @@ type ElemHidden struct {
 	Y      string
 }
 
+// RefElem is an array/slice element struct that holds reference content.
+type RefElem struct {
+	Tags map[string]int
+	W    []int
+}
+
+// Limits / Backend: a slice element struct that embeds a pointer to a struct
+// (inside slice elements nothing is pointerified).
+type Limits struct {
+	Max  int
+	Rate float64
+}
+
+// Backend embeds *Limits.
+type Backend struct {
+	Name string
+	*Limits
+}
+
+// Opt is a text-unmarshalable struct that accepts the empty text (and records that it was set).
+type Opt struct {
+	S   string
+	Set bool
+}
+
+// MarshalText implements encoding.TextMarshaler.
+func (o Opt) MarshalText() ([]byte, error) { return []byte(o.S), nil }
+
+// UnmarshalText implements encoding.TextUnmarshaler.
+func (o *Opt) UnmarshalText(b []byte) error {
+	o.S, o.Set = string(b), true
+	return nil
+}
+
 // Capability flags of a leaf kind.
 const (
 	CapEnv   = 1 << iota // string-castable (environment source)
@@ -76,6 +110,7 @@ const (
 	CapRef               // contains mutable memory (pointer, map, slice backing array)
 	CapNamed             // user-defined named type
 	CapTextU             // text-unmarshalable
+	CapIface             // interface-typed field (only checks that opt in generate these)
 )
 
 // Leaf describes a leaf type.
@@ -159,12 +194,12 @@ func quoteList(items []string) string {
 	return strings.Join(q, ",")
 }
 
-// Leaves is the pool of leaf kinds.
-var Leaves = buildLeaves()
+// AllLeaves is the pool of all leaf kinds.
+var AllLeaves = buildLeaves()
 
 // LeafByName finds a leaf kind.
 func LeafByName(n string) *Leaf {
-	for _, l := range Leaves {
+	for _, l := range AllLeaves {
 		if l.Name == n {
 			return l
 		}
@@ -382,6 +417,37 @@ func buildLeaves() []*Leaf {
 			}},
 		{Name: "[2]Elem", Type: reflect.TypeOf([2]Elem{}), Caps: 0,
 			Gen: func(r *fw.Rand, uniq int) reflect.Value { return rv([2]Elem{{X: uniq}, {Y: GenString(r, uniq)}}) }},
+		{Name: "[2]RefElem", Type: reflect.TypeOf([2]RefElem{}), Caps: CapRef,
+			Gen: func(r *fw.Rand, uniq int) reflect.Value {
+				return rv([2]RefElem{{Tags: map[string]int{"t": uniq}, W: []int{uniq, 1}}, {W: make([]int, 1, 3)}})
+			}},
+		{Name: "[2][1]*int", Type: reflect.TypeOf([2][1]*int{}), Caps: CapRef,
+			Gen: func(r *fw.Rand, uniq int) reflect.Value { a, b := uniq, -uniq; return rv([2][1]*int{{&a}, {&b}}) }},
+		{Name: "[]Backend", Type: reflect.TypeOf([]Backend{}), Caps: CapRef,
+			Gen: func(r *fw.Rand, uniq int) reflect.Value {
+				return rv([]Backend{{Name: GenString(r, uniq), Limits: &Limits{Max: uniq, Rate: 1.5}}, {Name: "n", Limits: &Limits{Max: 1}}})
+			}},
+		{Name: "opt", Type: reflect.TypeOf(Opt{}), Caps: CapFlag | CapTextU,
+			Text: func(v reflect.Value) string { return v.Interface().(Opt).S },
+			Gen: func(r *fw.Rand, uniq int) reflect.Value {
+				if r.Chance(30) {
+					return rv(Opt{S: "", Set: true})
+				}
+				return rv(Opt{S: "o" + strconv.Itoa(uniq), Set: true})
+			}},
+		{Name: "any", Type: reflect.TypeOf((*any)(nil)).Elem(), Caps: CapRef | CapIface,
+			Gen: func(r *fw.Rand, uniq int) reflect.Value {
+				var x any
+				switch r.Intn(3) {
+				case 0:
+					x = []int{uniq, uniq + 1}
+				case 1:
+					x = map[string]int{"a": uniq}
+				default:
+					x = make([]string, 1, 4)
+				}
+				return reflect.ValueOf(&x).Elem()
+			}},
 		// named versions
 		{Name: "Level", Type: reflect.TypeOf(Level(0)), Caps: CapEnv | CapFlag | CapNamed, Text: uintText,
 			Gen: func(r *fw.Rand, uniq int) reflect.Value { return rv(Level(uniq%255 + 1)) }},
@@ -437,10 +503,13 @@ func buildLeaves() []*Leaf {
 	return ls
 }
 
+// Leaves is the default pool (everything except interface-typed leaves).
+var Leaves = LeavesWith(0, CapIface)
+
 // LeavesWith returns the leaf kinds having all of the caps (and none of without).
 func LeavesWith(caps, without int) []*Leaf {
 	var out []*Leaf
-	for _, l := range Leaves {
+	for _, l := range AllLeaves {
 		if l.Caps&caps == caps && l.Caps&without == 0 {
 			out = append(out, l)
 		}
